@@ -237,6 +237,14 @@ def run_shard(ctx):
                 ctx.observe(f"crafted-first-frame-length:{vs['first_frame_len']}")
             else:
                 vs = workloads.valid_stream(rng, mode=rng.choice(["generic", "rdf11"]), max_len=20)
+                if vs is not None and vs["delimited"] and i % 5 == 2:
+                    # the stream opens with 1-3 frames that hold no rows: zero-length keep-alives or metadata-only heartbeats
+                    from .. import wire as _wire
+                    lead = [{"rows": [], "metadata": ([("hb", bytes([k]))] if rng.random() < .5 else [])} for k in range(rng.randint(1, 3))]
+                    frames = lead + [{"rows": f["rows"], "metadata": f.get("metadata") or []} for f in vs["frames"]]
+                    data2 = _wire.enc_stream(frames, True)
+                    vs = dict(vs, data=data2, frames=_wire.dec_stream(data2, True), producer=vs["producer"] + "+leading-rowless-frames")
+                    ctx.observe("streams-opening-with-rowless-frames")
             if vs is None:
                 continue
             data = vs["data"]
